@@ -568,7 +568,7 @@ pub fn mutate(b: &[u8], kind: &str, rng: &mut Rng) -> Option<Vec<u8>> {
         }
         "huge-len" => {
             let it = pick(rng, &|i| (2..=5).contains(&i.major))?;
-            let n = *rng.pick(&[1u64 << 31, 1 << 32, 1 << 63, u64::MAX, 1 << 20, 1 << 24]);
+            let n = *rng.pick(&[1u64 << 31, 1 << 32, 1 << 63, u64::MAX, 1 << 20, 1 << 24, 10_000, 9_999, 65_535, 100_000]);
             Some(splice(b, it.start, it.start + it.head_len, &min_head(it.major, n)))
         }
         "truncate" => {
